@@ -156,7 +156,9 @@ func (g *pathGen) recordCall(s *pstate, c *ast.CallExpr, lhs []ast.Expr) {
 	}
 	// timer operations and writes are recorded with their arguments (which duration a timer is armed with, what is
 	// handed to the connection)
-	if strings.HasSuffix(name, "NewTimer") || strings.HasSuffix(name, ".Reset") || strings.HasSuffix(name, ".Write") {
+	// the peer manager's main loop: which direction (and which received value) a helper is called with is what the tie reads
+	if strings.HasSuffix(name, "NewTimer") || strings.HasSuffix(name, ".Reset") || strings.HasSuffix(name, ".Write") ||
+		(g.fn == "peer.run" && strings.HasPrefix(name, "p.")) {
 		s.calls = append(s.calls, exprString(g.fset, c))
 	} else {
 		s.calls = append(s.calls, name)
@@ -466,7 +468,7 @@ func genPaths(pkg *packages.Package) {
 		"drainAndResetHoldTimer": true, "sendOpenAndSetHoldTimer": true, "cleanupConnAndReader": true, "sendNotification": true,
 		"sendKeepAlive": true, "startReading": true, "idle": true, "connect": true, "active": true, "dialPeer": true, "closeDialedConn": true, "WriteUpdate": true, "read": true, "run": true, "cleanup": true, "stop": true}
 	peerFns := map[string]bool{"handleError": true, "enableFSM": true, "disableFSM": true, "updateStartupDelay": true,
-		"handleStateTransition": true, "sendTransitionToFSM": true, "stop": true, "start": true}
+		"handleStateTransition": true, "sendTransitionToFSM": true, "stop": true, "start": true, "run": true, "incomingConnection": true}
 	var all []codePath
 	for _, file := range pkg.Syntax {
 		base := filepath.Base(pkg.Fset.Position(file.Pos()).Filename)
